@@ -11,8 +11,8 @@ namespace Tg
 namespace Ide
 
 class StdRel (R : IndexCtx → IndexCtx → Prop) : Prop extends KeepRel R where
-  /-- `R` only looks at the symbol map and the scope stack -/
-  of_eq : ∀ c c', c'.symbolMap = c.symbolMap → c'.scopes = c.scopes → R c c'
+  /-- `R` only looks at the workspace (which never changes), the symbol map and the scope stack -/
+  of_eq : ∀ c c', c'.ws = c.ws → c'.symbolMap = c.symbolMap → c'.scopes = c.scopes → R c c'
   /-- the steps of the `SymMap` API are allowed -/
   sm : ∀ c sm', SmStep c.symbolMap sm' → R c { c with symbolMap := sm' }
 
@@ -38,17 +38,17 @@ macro_rules | `(tactic| keeps_prim) => `(tactic| exact panic_keeps _)
 theorem markIndexed_keeps (f : Nat) : Keeps R (markIndexed f) := by
   unfold markIndexed
   refine Keeps.modifyGet _ fun c => ?_
-  split <;> exact StdRel.of_eq _ _ rfl rfl
+  split <;> exact StdRel.of_eq _ _ rfl rfl rfl
 macro_rules | `(tactic| keeps_prim) => `(tactic| exact markIndexed_keeps _)
 
 theorem pushFile_keeps (f : Nat) : Keeps R (pushFile f) :=
-  Keeps.modify _ fun _ => StdRel.of_eq _ _ rfl rfl
+  Keeps.modify _ fun _ => StdRel.of_eq _ _ rfl rfl rfl
 macro_rules | `(tactic| keeps_prim) => `(tactic| exact pushFile_keeps _)
 
 theorem popFile_keeps : Keeps R popFile := by
   unfold popFile
   keeps
-  exact Keeps.modify _ fun _ => StdRel.of_eq _ _ rfl rfl
+  exact Keeps.modify _ fun _ => StdRel.of_eq _ _ rfl rfl rfl
 macro_rules | `(tactic| keeps_prim) => `(tactic| exact popFile_keeps)
 
 theorem resolveId_keeps (name : String) : Keeps R (resolveId name) := by
@@ -59,11 +59,11 @@ macro_rules | `(tactic| keeps_prim) => `(tactic| exact resolveId_keeps _)
 theorem error_keeps (rg : Nat × Nat) (msg : String) : Keeps R (error rg msg) := by
   unfold error
   keeps
-  exact Keeps.modify _ fun _ => StdRel.of_eq _ _ rfl rfl
+  exact Keeps.modify _ fun _ => StdRel.of_eq _ _ rfl rfl rfl
 macro_rules | `(tactic| keeps_prim) => `(tactic| exact error_keeps _ _)
 
 theorem nextAnonymousDefName_keeps : Keeps R nextAnonymousDefName :=
-  Keeps.modifyGet _ fun _ => StdRel.of_eq _ _ rfl rfl
+  Keeps.modifyGet _ fun _ => StdRel.of_eq _ _ rfl rfl rfl
 macro_rules | `(tactic| keeps_prim) => `(tactic| exact nextAnonymousDefName_keeps)
 
 theorem currentRecordId_keeps : Keeps R currentRecordId := by unfold currentRecordId; keeps
